@@ -156,6 +156,20 @@ type decodedCommit struct {
 	Key   string
 }
 
+// tapKey is decodeKey for a commit as the recording logger received it.
+func tapKey(tc *TapCommit) decodedCommit {
+	d := decodedCommit{ID: tc.ID, Chunk: tc.Chunk}
+	h := hashInit
+	for _, b := range tc.Bufs {
+		h = h.addStr(b.Col)
+		for _, op := range b.Ops {
+			h = h.add(uint64(op.Type)<<32 | uint64(op.Off)).addStr(string(op.Val))
+		}
+	}
+	d.Key = fmt.Sprintf("%x", uint64(h))
+	return d
+}
+
 func decodeKey(c commit.Commit) decodedCommit {
 	d := decodedCommit{ID: c.ID, Chunk: uint32(c.Chunk)}
 	h := hashInit
@@ -320,13 +334,13 @@ func (w *World) truncationChecks(everyByteBelow, samples int) {
 	}
 	// ---- the primary's commit log
 	if st.logFile != nil && len(st.logFile.Data) > 0 {
-		w.logTruncationChecks(st.logFile, everyByteBelow, samples, rng)
+		w.logTruncationChecks(st.logFile, w.tap.Commits, everyByteBelow, samples, rng)
 	}
 }
 
 // logTruncationChecks enumerates crash points of a commit log: Range over every prefix
 // must deliver a prefix of the original commits, each identical, without panic or hang.
-func (w *World) logTruncationChecks(file *SimRW, everyByteBelow, samples int, rng *Rng) {
+func (w *World) logTruncationChecks(file *SimRW, appended []*TapCommit, everyByteBelow, samples int, rng *Rng) {
 	limit := 10 * time.Second
 	{
 		data := file.Data
@@ -337,6 +351,28 @@ func (w *World) logTruncationChecks(file *SimRW, everyByteBelow, samples int, rn
 		}); err != nil {
 			w.fail(violation("truncated-log/complete-unreadable", "the complete log does not range: %v", err))
 			return
+		}
+		// the commits on disk are the commits that were appended: same number, same ids, same
+		// operations (a commit is the unit a crash may or may not leave behind)
+		if appended != nil {
+			if len(full) != len(appended) {
+				w.fail(violation("truncated-log/commit-count", "%d commits were appended to the log, Range over the complete log delivers %d", len(appended), len(full)))
+				return
+			}
+			// per block in the same order (commits to different blocks are appended under different
+			// latches: their order in the file is decided at the log's own lock)
+			perBlock := map[uint32][]decodedCommit{}
+			for _, tc := range appended {
+				perBlock[tc.Chunk] = append(perBlock[tc.Chunk], tapKey(tc))
+			}
+			for i := range full {
+				q := perBlock[full[i].Chunk]
+				if len(q) == 0 || q[0] != full[i] {
+					w.fail(violation("truncated-log/commit-differs", "commit #%d read back from the complete log (id %d block %d) is not the next commit appended for that block", i, full[i].ID, full[i].Chunk))
+					return
+				}
+				perBlock[full[i].Chunk] = q[1:]
+			}
 		}
 		for _, p := range truncationPoints(len(data), file.Boundaries(), everyByteBelow, samples, rng) {
 			rd := NewSimReader(data[:p], nil, 0)
@@ -502,6 +538,23 @@ func (w *World) snapshotFaultChecks(everyByteBelow, samples int) {
 		// a healthy writer and restore
 		if i%7 == 0 || i == len(plans)-1 {
 			tp := &TxnProg{Ops: []Op{{Kind: "at", Target: Target{Mode: "live", K: i}, Writes: []Write{{Col: "expire", Val: Val{U: uint64(1000 + i)}}}}}}
+			// the transaction touches every plain value column (several update buffers taken from
+			// the page pool one after the other)
+			for ci, col := range w.model.Cols {
+				if col.Name == "expire" || col.Kind == KKey || col.Kind == KRecord || col.Kind == KEnum {
+					continue
+				}
+				var v Val
+				switch {
+				case col.Kind == KString:
+					v = strVal(fmt.Sprintf("after-fault-%d-%d", i, ci))
+				case col.Kind == KBool:
+					v = Val{U: uint64(i & 1)}
+				default:
+					v = Val{U: uint64(3*i + ci)}
+				}
+				tp.Ops[0].Writes = append(tp.Ops[0].Writes, Write{Col: col.Name, Val: v})
+			}
 			if len(w.model.Rows) == 0 {
 				if _, ok := w.model.KeyCol(); !ok {
 					tp = &TxnProg{Ops: []Op{{Kind: "insert", Writes: []Write{{Col: "expire", Val: Val{U: uint64(1000 + i)}}}}}}
@@ -606,7 +659,7 @@ func runBigLog(cs *Case) (w *World) {
 	if len(file.Data) > 2<<20 {
 		w.stats.probe("commits-above-1MiB-in-log")
 	}
-	w.logTruncationChecks(file, 0, 40, rng)
+	w.logTruncationChecks(file, w.tap.Commits, 0, 40, rng)
 	w.stats.EndState = uint64(hashInit.add(uint64(len(file.Data))))
 	w.stats.Nontrivial = len(w.tap.Commits) >= 2
 	return w
